@@ -12,6 +12,11 @@ kinds   instance method / classmethod / staticmethod / __call__ / property defin
 prop    property getter/setter combinations.
 isa     isinstance / type() is / issubclass matrices over the diamond, tuple and union class arguments.
 dunder  __getitem__ with index / slice / tuple keys, __len__, __contains__ (rejected), user __eq__ used by ==.
+ctor    constructor calls: class kinds = __new__ in {absent, (cls, v, scale=1), (cls, *a, **k), inherited} x __init__ in
+        {absent, (self, v, scale=1), (self), (self, *a, **k), inherited}; every call shape in CTOR_SHAPES (positional,
+        keyword, * and ** spreads, too many, wrong keyword).  Where CPython raises an argument-binding TypeError
+        ("takes no arguments", missing / unexpected / multiple values) cohdl must reject; otherwise the instances are
+        compared by class name and attribute dict.
 value   bound methods, functions and classes as first-class values.
 """
 from __future__ import annotations
@@ -205,6 +210,41 @@ def value_cases():
         yield case(f"cls/value/{k}", a + b + f"def case__S__():\n{p}", "case__S__()")
 
 
+NEW_KINDS = {
+    "-": "",
+    "S1": "    def __new__(cls, v, scale=1):\n        return object.__new__(cls)\n",
+    "Sv": "    def __new__(cls, *a, **k):\n        return object.__new__(cls)\n",
+}
+INIT_KINDS = {
+    "-": "",
+    "S1": "    def __init__(self, v, scale=1):\n        self.r = v * scale\n",
+    "S0": "    def __init__(self):\n        self.r = 'none'\n",
+    "Sv": "    def __init__(self, *a, **k):\n        self.r = (a, k)\n",
+}
+CTOR_SHAPES = {
+    "none": "", "p1": "3", "p2": "3, 2", "p1k": "3, scale=2", "k1": "v=3", "k2": "v=3, scale=2", "s1": "*[3]", "s2": "*[3, 2]",
+    "d1": "**{'v': 3}", "p1d": "3, **{'scale': 2}", "p3": "3, 2, 1", "wrongkw": "3, z=9", "onlyscale": "scale=2",
+}
+
+
+def ctor_cases():
+    for nk in ("-", "S1", "Sv", "inhS1"):
+        for ik in ("-", "S1", "S0", "Sv", "inhS1"):
+            base = "class P__S__:\n    tag = 'P'\n"
+            if nk == "inhS1":
+                base += NEW_KINDS["S1"]
+            if ik == "inhS1":
+                base += INIT_KINDS["S1"]
+            body = NEW_KINDS.get(nk, "") + INIT_KINDS.get(ik, "")
+            cls = "class K__S__(P__S__):\n    tag = 'K'\n" + body
+            for sk, args in CTOR_SHAPES.items():
+                yield case(f"cls/ctor/new{nk}/init{ik}/{sk}", base + cls + f"def case__S__():\n    return K__S__({args})\n",
+                           "case__S__()", binding=True)
+                # the object is used, not only created
+                yield case(f"cls/ctor_use/new{nk}/init{ik}/{sk}", base + cls + f"def case__S__():\n    return K__S__({args}).tag\n",
+                           "case__S__()", binding=True)
+
+
 def cases(thorough):
     yield from mro_cases()
     yield from init_cases()
@@ -214,6 +254,7 @@ def cases(thorough):
     yield from isa_cases()
     yield from dunder_cases()
     yield from value_cases()
+    yield from ctor_cases()
 
 
 STRIPES = 4
